@@ -14,21 +14,22 @@ MANIFEST = {
     "text": "Proved in Lean for all inputs/histories: _calc_mod equals hash % prime for every row of the prime table regenerated from "
             "arenahash.cpp and every 32-bit hash; arena safety (live regions aligned, in bounds, pairwise disjoint, reset returns all) over "
             "all alloc/free/reset sequences; ArenaVector, ArenaBitSet and String refine the textbook list / bit list / byte string over "
-            "all operation sequences interleaved with an allocation oracle that may fail at any point (no write outside the allocation, "
-            "capacity >= size, failure leaves the container unchanged, null termination, append_uint parses back); ArenaHash refines a finite "
-            "map with every node reachable from bucket hash % bucket_count (insert/remove/get/rehash, any arena behaviour); ArenaPool is a "
-            "LIFO of released blocks; ArenaTree: get, insert (set refinement, BST order and red-black balance preserved, all insert "
-            "histories) and remove (set refinement and BST order for every single remove, both code paths); ArenaList: every operation and "
-            "both traversals against the textbook list; the word-level bit primitives equal the List Bool specification. The models are "
-            "tied to the real classes by running both on the same seeded operation lines (adversarial sizes/keys, several containers on "
-            "one arena, soft/hard resets, static-buffer arenas) and the monitor judges every answer of the implementation.",
-    "note": "Partial: that ArenaTree::remove preserves the red-black colour invariant is not proved, so the tree theorem for MIXED "
-            "insert/remove histories (tree_refines_set_partial) carries it as an explicit hypothesis; the ArenaList sequence theorem exists "
-            "only for prepend/pop_first (all single operations are proved); the hash map theorem assumes the get-before-insert protocol "
-            "(no duplicate keys); vector/bit-set theorems assume no single allocation of 4 GiB / 512 MiB succeeds (uint32 capacity "
-            "fields). These parts are covered by correspondence (exact shapes, chains, links) and by the monitor after every operation. Raw "
-            "memory safety is what ASan/UBSan/LSan see on the explored histories; String::_op_format (vsnprintf) is not modelled. Trusted: "
-            "Lean kernel, Spec/C18*.lean as the meaning of the ADTs, gen_primes.py, harness/driver/diff, malloc returning fresh blocks.",
+            "all operation sequences interleaved with an allocation oracle that may fail or grant anything at any point (no write outside "
+            "the allocation, capacity >= size, failure leaves the container unchanged, null termination, append_uint parses back, the "
+            "non-format part of _op_vformat); ArenaHash refines a finite map with every node reachable from bucket hash % bucket_count; "
+            "ArenaPool is a LIFO of released blocks; ArenaTree: tree_refines_set for every mixed insert/remove history (ordered-set "
+            "refinement, BST order and red-black balance - root black, no red-red, equal black height - preserved, fuel never exhausted "
+            "below 2^64 nodes); ArenaList: list_refines_list for all seven operations with both link directions consistent; the "
+            "word-level bit primitives equal the List Bool specification. The models are tied to the real classes by running both on the "
+            "same seeded operation lines (adversarial sizes/keys, several containers on one arena, soft/hard resets, static-buffer "
+            "arenas, huge untouched allocations on a non-sanitized build, an allocator that refuses 16 MB) and the monitor judges every "
+            "answer of the implementation.",
+    "note": "Assumptions of the theorems: hash map and list sequence theorems assume the get-before-insert protocol / fresh values (no "
+            "duplicate keys or values); vector item size < 2^32; histories shorter than 2^64 operations. vsnprintf itself is an oracle "
+            "(only the buffer handling of String::_op_vformat is modelled and tested, with the format \"%s\" / \"%*s\"). Multi-GiB "
+            "scenarios and the allocation-failure scenario are judged by the monitor only (no model correspondence). Raw memory safety is "
+            "what ASan/UBSan/LSan see on the explored histories. Trusted: Lean kernel, Spec/C18*.lean as the meaning of the ADTs, "
+            "gen_primes.py, harness/driver/diff, malloc returning fresh blocks.",
 }
 MODS = ["AsmjitVerif.Props.C18"]
 U64 = (1 << 64) - 1
@@ -348,8 +349,13 @@ def str_ops(rng, ids, n):
             ops.append("S %d %s %d %d %d %d" % (s, rng.choice(["append_uint", "append_uint", "append_int", "assign_uint"]), v, base, width, flags))
         elif r < 0.74:
             ops.append("S %d %s %s %d" % (s, rng.choice(["append_hex", "append_hex", "assign_hex"]), rbytes(rng, rng.randrange(0, 20)), rng.choice([0, 0, 32, 58])))
-        elif r < 0.80:
+        elif r < 0.77:
             ops.append("S %d pad_end %d %d" % (s, rng.choice(lens), rng.randrange(1, 128)))
+        elif r < 0.80:
+            # _op_vformat with "%s": lengths around the in-place threshold (128 free bytes), the 1024-byte stack buffer and
+            # "exactly fills the capacity" (the generator cannot know the capacity: pad_end to cap-k is tried via common capacities)
+            ops.append("S %d %s %s" % (s, rng.choice(["append_format", "append_format", "assign_format"]),
+                                       rbytes(rng, rng.choice([0, 1, 5, 30, 31, 100, 127, 128, 129, 255, 311, 383, 384, 511, 512, 1023, 1024, 1025, 1500]))))
         elif r < 0.88:
             ops.append("S %d truncate %d" % (s, rng.choice(lens + [U64])))
         elif r < 0.91:
@@ -408,7 +414,19 @@ FIXED = [
     ("w_dynleak", ["A new 4096 0", "A get 1 5000", "A get 2 3000", "A reset hard", "A stats"]),
     ("w_bitresize", ["A new 1024 0", "B new 1", "B 1 resize 5 1", "B 1 resize 7 0", "B 1 resize 70 1", "B 1 resize 130 0", "B 1 resize 131 1"]),
     ("w_lastindex", ["A new 1024 0", "V new 1 4", "V 1 append 5", "V 1 append 6", "V 1 append 5", "V 1 last_index_of 5", "V 1 index_of 5"]),
+    ("w_format_fill", ["A new 1024 0", "S new 1", "S 1 append " + "41" * 200, "S 1 append_format " + "42" * 311, "S 1 append 43",
+                       "S 1 assign_format " + "44" * 511, "S 1 assign_format " + "45" * 1300, "S 1 append_format -"]),
     ("w_assign0", ["A new 1024 0", "S new 1", "S 1 append 616263", "S 1 assign_chars 120 0", "S 1 append 64", "S 1 assign_span -", "S 1 assign_hex - 0"]),
+]
+
+
+# huge-allocation witnesses (run on a NON-sanitized build so that malloc hands out untouched multi-GiB mappings; judged by the
+# monitor only, the Lean driver does not materialise 2^32-element buffers)
+HUGE_SCENARIOS = [
+    ("huge_vec_capacity", ["A new 4096 0", "V new 1 1", "V 1 reserve_grow 4294967294", "V 1 append 7", "V 1 release", "A stats"]),
+    ("huge_vec_release", ["A new 4096 0", "V new 1 4", "V 1 reserve_fit 1073741828", "V 1 release", "A get 1 16", "A get 2 16", "A reset hard"]),
+    ("huge_bits_capacity", ["A new 4096 0", "B new 1", "B 1 resize 4294967233 0", "B 1 release"]),
+    ("huge_bits_size", ["A new 4096 0", "B new 1", "B 1 resize 4294967301 0", "B 1 release"]),
 ]
 
 
@@ -462,13 +480,20 @@ def prime_search(rows):
 ENV = {"ASAN_OPTIONS": "detect_leaks=1:abort_on_error=0:exitcode=99:allocator_may_return_null=1:max_allocation_size_mb=1048576"}
 
 
+ENV_SMALL_MALLOC = {"ASAN_OPTIONS": ENV["ASAN_OPTIONS"].replace("max_allocation_size_mb=1048576", "max_allocation_size_mb=16")}
+# allocation failure inside String::_op_vformat (the allocator refuses 20 MB): judged by the monitor only
+FORMAT_OOM = ("oom_format", ["A new 1024 0", "S new 1", "S 1 append " + "41" * 200, "S 1 append_format_w 20000000 4242", "S 1 append 43"])
+
+
 def run_impl(h, ops):
-    return vlib.run_lines([str(h)], ops, env=ENV, timeout=600)
+    env = ENV_SMALL_MALLOC if any(" append_format_w " in o for o in ops) else ENV
+    return vlib.run_lines([str(h)], ops, env=env, timeout=600)
 
 
 def judge(h, ops):
     """Run one scenario on the real code and through the monitor. Returns dict(kind, key, what, idx, impl)."""
     impl, rc, err = run_impl(h, ops)
+
     res = {"impl": impl, "rc": rc, "kind": "good"}
     if rc != 0 or len(impl) != len(ops):
         m = re.search(r"(ERROR: \w+Sanitizer: [^\n]*|runtime error: [^\n]*|SUMMARY: [^\n]*)", err)
@@ -485,7 +510,7 @@ def judge(h, ops):
     for i, mline in enumerate(mon):
         if mline != "good":
             w = ops[i].split()
-            res.update(kind="bad", key="monitor:%s:%s" % (w[0], w[2] if len(w) > 2 and w[0] != "A" else w[1]),
+            res.update(kind="bad", key="monitor:%s:%s%s" % (w[0], w[2] if len(w) > 2 and w[0] != "A" else w[1], ":oom" if impl[i].startswith("oom") else ""),
                        what="%s -> %s   [%s]" % (ops[i], impl[i], mline), idx=i)
             return res
     return res
@@ -509,10 +534,9 @@ def run(res):
     res.assumptions += [
         "malloc returns fresh, 16-byte aligned, non-overlapping blocks and fails for requests above 2^40 bytes (ASan limit); requests between "
         "64 MiB and 2^40 bytes are not generated",
-        "ArenaTree::remove keeping the red-black colour invariant and the ArenaList sequence theorem are not proved (monitored after every "
-        "operation: shape, order, balance, links); hash map theorem assumes keys are inserted only when absent",
-        "String::_op_format/_op_vformat (vsnprintf) are not modelled",
-        "ArenaVector / ArenaBitSet theorems assume no single allocation of 4 GiB / 512 MiB or more succeeds (uint32 capacity truncation otherwise)",
+        "hash map / list sequence theorems assume keys / values are inserted only when absent (harness protocol)",
+        "String::_op_vformat: vsnprintf is an oracle producing the output bytes; only the buffer handling around it is modelled and proved",
+        "multi-GiB witnesses run on a non-sanitized build (malloc hands out untouched mappings) and are judged by the monitor only",
         "raw memory safety (no overrun, no use after free, no leak) = ASan/UBSan/LSan on the explored histories + the models' bounds-checked buffers",
     ]
     broken = []
@@ -545,6 +569,7 @@ def run(res):
 
     scenarios = gen_scenarios(rng, res.tier)
     scenarios += prime_search(rows)
+    hplain = vlib.build_harness("c18", flavor="plain")
 
     def one(sc):
         name, ops = sc
@@ -555,6 +580,15 @@ def run(res):
 
     with ThreadPoolExecutor(4) as ex:
         results = list(ex.map(one, scenarios))
+    j = judge(h, FORMAT_OOM[1])
+    j["name"], j["ops"], j["model"], j["model_rc"] = FORMAT_OOM[0], FORMAT_OOM[1], list(j["impl"]), 0
+    results.append(j)
+    for name, ops in HUGE_SCENARIOS:
+        j = judge(hplain, ops)
+        # monitor only: the model side is the answer of the real code (no correspondence for 2^32-element buffers)
+        j["name"], j["ops"], j["model"], j["model_rc"] = name, ops, list(j["impl"]), 0
+        j["harness"] = "plain"
+        results.append(j)
 
     nev, nontriv = 0, set()
     kinds = {}
@@ -596,10 +630,11 @@ def run(res):
         if j["kind"] == "protocol":
             res.violation(j["what"], {"ops": j["ops"][:50]}, found_input=False, key="protocol")
             continue
-        small = shrink(h, j["ops"][:j["idx"] + (1 if j["kind"] == "bad" else len(j["ops"]))], key)
-        jj = judge(h, small)
+        hh = hplain if j.get("harness") == "plain" else h
+        small = shrink(hh, j["ops"][:j["idx"] + (1 if j["kind"] == "bad" else len(j["ops"]))], key)
+        jj = judge(hh, small)
         res.violation("property violated on the real code (%s): %s" % (key, jj.get("what", j["what"])),
-                      {"ops": small, "scenario": j["name"], "monitor": jj.get("what", j["what"]), "stderr": jj.get("stderr", ""),
+                      {"ops": small, "scenario": j["name"], "harness": j.get("harness", "asan"), "monitor": jj.get("what", j["what"]), "stderr": jj.get("stderr", ""),
                        "how": "python3 tools/check.py replay <this file>"}, True, key=key)
     if not seen_keys and diffs:
         name, d, a, b = diffs[0][:4]
@@ -614,7 +649,7 @@ def run(res):
 
 def replay(data):
     ops = data["replay"].get("ops", [])
-    h = vlib.build_harness("c18")
+    h = vlib.build_harness("c18", flavor="plain" if data["replay"].get("harness") == "plain" else "asan")
     j = judge(h, ops)
     for i, o in enumerate(ops):
         a = j["impl"][i] if i < len(j["impl"]) else "<no answer: aborted>"
